@@ -2,8 +2,10 @@ package main
 
 import (
 	"go/token"
+	"strings"
 
 	"golang.org/x/tools/go/ssa"
+	"golang.org/x/tools/go/ssa/ssautil"
 )
 
 // funcValueOf: the function a function-typed value denotes when that is decidable from the value itself:
@@ -152,4 +154,141 @@ func guardedThroughCallers(c *Ctx, rel string, at ssa.Instruction, pred func(cd 
 		}
 	}
 	return n > 0
+}
+
+// ---- static call sites of module functions (built once per program) ----
+
+type siteIndex struct {
+	sites   map[*ssa.Function][]ssa.CallInstruction
+	escapes map[*ssa.Function]bool // used as a value (method value, callback): callers unknown
+}
+
+var siteIndexes = map[*ssa.Program]*siteIndex{}
+
+func sitesOf(fn *ssa.Function) ([]ssa.CallInstruction, bool) {
+	prog := fn.Prog
+	ix := siteIndexes[prog]
+	if ix == nil {
+		ix = &siteIndex{sites: map[*ssa.Function][]ssa.CallInstruction{}, escapes: map[*ssa.Function]bool{}}
+		siteIndexes[prog] = ix
+		for g := range ssautil.AllFunctions(prog) {
+			if g.Blocks == nil {
+				continue
+			}
+			inMod := g.Pkg != nil && strings.HasPrefix(g.Pkg.Pkg.Path(), Mod)
+			if !inMod {
+				// wrappers and thunks have no package; closures inherit it
+				root := g
+				for root.Parent() != nil {
+					root = root.Parent()
+				}
+				if root.Pkg == nil && g.Synthetic == "" {
+					continue
+				}
+			}
+			for _, b := range g.Blocks {
+				for _, ins := range b.Instrs {
+					var callee ssa.Value
+					if call, ok := ins.(ssa.CallInstruction); ok {
+						if h := call.Common().StaticCallee(); h != nil {
+							if g.Synthetic != "" {
+								// a bound-method wrapper or thunk forwarding to h: h escapes as a value
+								ix.escapes[h] = true
+							} else {
+								ix.sites[h] = append(ix.sites[h], call)
+							}
+						}
+						callee = call.Common().Value
+					}
+					for _, op := range ins.Operands(nil) {
+						if *op == nil || *op == callee {
+							continue
+						}
+						if h, ok := (*op).(*ssa.Function); ok {
+							ix.escapes[h] = true
+						}
+					}
+				}
+			}
+		}
+	}
+	return ix.sites[fn], ix.escapes[fn]
+}
+
+// establishedVia: block b is reached only when `local` holds - at b itself, or at every success exit of a helper of
+// the same package whose success result gates b: a boolean result tested true (added := c.add(ch); if added) or a
+// status result tested OK (if st := c.addOpened(id, ch); !st.OK() { return st }). Two helper levels at most.
+func establishedVia(sa *statusAn, b *ssa.BasicBlock, local func(b *ssa.BasicBlock) bool, depth int) bool {
+	if local(b) {
+		return true
+	}
+	if depth >= 2 {
+		return false
+	}
+	fn := b.Parent()
+	for _, cd := range pathConds(b) {
+		v, truth := cd.V, cd.Truth
+		for {
+			un, isNot := v.(*ssa.UnOp)
+			if !isNot || un.Op != token.NOT {
+				break
+			}
+			v, truth = un.X, !truth
+		}
+		if x, ok := okCallOn(v); ok {
+			if !truth {
+				continue
+			}
+			hc, idx := resultOfCall(unspill(x))
+			if hc == nil {
+				continue
+			}
+			h := hc.Call.StaticCallee()
+			if h == nil || h.Blocks == nil || h.Pkg == nil || h.Pkg != fn.Pkg {
+				continue
+			}
+			all, n := true, 0
+			for _, ret := range returnsOf(h) {
+				if ret.Block() == h.Recover || idx >= len(ret.Results) {
+					continue
+				}
+				if sa.classOf(ret.Results[idx], ret.Block(), false, 0) == SNonOK {
+					continue
+				}
+				n++
+				if !establishedVia(sa, ret.Block(), local, depth+1) {
+					all = false
+				}
+			}
+			if all && n > 0 {
+				return true
+			}
+			continue
+		}
+		hc, idx := resultOfCall(v)
+		if hc == nil || !isBoolType(v.Type()) {
+			continue
+		}
+		h := hc.Call.StaticCallee()
+		if h == nil || h.Blocks == nil || h.Pkg == nil || h.Pkg != fn.Pkg {
+			continue
+		}
+		all, n := true, 0
+		for _, ret := range returnsOf(h) {
+			if ret.Block() == h.Recover || idx >= len(ret.Results) {
+				continue
+			}
+			if k, ok := unspill(ret.Results[idx]).(*ssa.Const); ok && k.Value != nil && (k.Value.String() == "true") != truth {
+				continue
+			}
+			n++
+			if !establishedVia(sa, ret.Block(), local, depth+1) {
+				all = false
+			}
+		}
+		if all && n > 0 {
+			return true
+		}
+	}
+	return false
 }
